@@ -115,6 +115,19 @@ CLAIMED["C17"] = {
   "design_ref": "DESIGN.md section 4 C17",
 }
 
+CLAIMED["C32"] = {
+  "text": "Static decision that flag tests are wired to the contributions they should remove and only to those: under the sole assumption that a flag is set/clear, every write of its own contribution in step()/forward() is unreachable (three-valued evaluation of host- and kernel-level path conditions, flags resolved through launch bindings) or stores zero, sibling contributions stay reachable, and every flag is still consulted in the feature areas of the confirmed baseline.",
+  "note": STATIC_NOTE,
+  "technique": "three-valued path-condition evaluation over effect traces under a single-flag assumption (R-FLAGS) + reference baseline (R-DISPATCH)",
+  "design_ref": "DESIGN.md section 4 C32",
+}
+CLAIMED["C38"] = {
+  "text": "Static decision of the structural clauses: the sequential DOF compaction guards its map writes by count < nvmax, sets the NVMAX bit under count > nvmax on the same counter and clamps ncdof; scatter kernels write x_c[dof_cdof[i]] for active and 0.0 for frozen DOFs; gather kernels read x[cdof_dof[ci]] into compact slot ci.",
+  "note": STATIC_NOTE,
+  "technique": "guard / value-form matching on the kernel IR (R-CAP, R-GATE)",
+  "design_ref": "DESIGN.md section 4 C38",
+}
+
 NOT_APPLICABLE = {
   "C06": "optimality of an iterative float solve is a runtime quantity; no structural necessary condition beyond what C24/C25 decide",
   "C18": "equivalence of broadphases depends on geometric conservativeness of numeric filters and sort/scan arithmetic; a sibling text-diff of the NXN/SAP kernels would alarm on harmless refactors",
